@@ -313,9 +313,11 @@ func runC02(r *simkit.Run) {
 	}
 	s.qb = qb
 	s.inSched.Store(true)
-	if err := qb.Start(context.Background(), host); err != nil {
+	sctx, started := simkit.StartContext(tp)
+	if err := qb.Start(sctx, host); err != nil {
 		panic(err)
 	}
+	started()
 	s.inSched.Store(false)
 	for i := 0; i < cfg.Producers; i++ {
 		s.prods = append(s.prods, &c02Prod{id: i})
